@@ -139,6 +139,11 @@ Exit(r) == /\ r.ev = "exit"
               /\ (On("C16") /\ f.role = "loop_body" /\ ~InLoop(rest) /\ r.sd = 1) =>
                     /\ r.h >= 1
                     /\ Last(r.sizes) >= hdr.size_lo /\ Last(r.sizes) <= hdr.size_hi
+              \* C07: a run may end after any pass of its main loop, so what holds at the end of a run holds here:
+              \* the recorded best is the minimum the objective function returned so far
+              \* (KF: ILS never offers the perturbed solution to the best-update)
+              /\ (On("C07") /\ f.role = "loop_body" /\ ~InLoop(rest) /\ r.sd = 1 /\ r.calls > 0) =>
+                    Dev(r.best = r.minseen, "KF_IlsScopeWiring_Best", IsIls /\ r.best > r.minseen)
               /\ frames' = rest
            /\ UNCHANGED <<hdr, done, minr>> /\ prev' = r
 
